@@ -52,6 +52,7 @@ type Result struct {
 	WallSec      float64                      `json:"wall_s"`
 	Instrs       int64                        `json:"instructions"`
 	PathSamples  []string                     `json:"path_samples,omitempty"`
+	ForkSites    map[string]int               `json:"fork_sites,omitempty"`
 }
 
 // harnessRun is the per-interpreter view of a running harness.
@@ -187,6 +188,12 @@ func worker(p *Program, fn *ssa.Function, opt Options, sh *sharedRun) {
 			}
 			for k, v := range i.stubbed {
 				sh.stubbed[k] += v
+			}
+			if sh.res.ForkSites == nil {
+				sh.res.ForkSites = map[string]int{}
+			}
+			for k, v := range i.forkSites {
+				sh.res.ForkSites[k] += v
 			}
 			sh.mu.Unlock()
 			i.solver.close()
